@@ -177,3 +177,27 @@ theorem add_isSome_of_runAt_none (t : Table ε) (ph pa : String) (r : LRun ε)
   unfold Table.add; simp [h]
 
 end Bobo.Decider
+
+namespace Bobo.Decider
+variable {ε : Type}
+theorem mem_of_mem_dedupById (l : List (Rec ε)) (r : Rec ε) (h : r ∈ dedupById l) : r ∈ l := by
+  induction l with
+  | nil => simp [dedupById] at h
+  | cons x rest ih =>
+    simp only [dedupById, List.mem_cons] at h
+    rcases h with e | e
+    · subst e; exact List.mem_cons_self ..
+    · exact List.mem_cons_of_mem _ (ih (List.mem_filter.mp e).1)
+
+/-- each run is reported at most once. -/
+theorem dedupById_nodup (l : List (Rec ε)) : ((dedupById l).map (·.id)).Nodup := by
+  induction l with
+  | nil => simp [dedupById]
+  | cons x rest ih =>
+    simp only [dedupById, List.map_cons, List.nodup_cons]
+    refine ⟨?_, (List.Sublist.map _ List.filter_sublist).nodup ih⟩
+    intro hm
+    obtain ⟨y, hy, hye⟩ := List.mem_map.mp hm
+    have := (List.mem_filter.mp hy).2
+    simp [hye] at this
+end Bobo.Decider
